@@ -81,7 +81,7 @@ static void scenario(int r_, int w_, int p_)
     for(int j = 1; j <= 3; j++) if(j <= r) {
         if(ins == p) run_w0();
         vp_insert1(j, 0, OP_R | region); inserted[j] = 1; ins++;
-        VASSERTM(PARENT_OF(&VT(j).t, 0)->task == &VT(W0).t && PARENT_OF(&VT(j).t, 0)->flow_index == 0, "reader's parent is the last writer");
+        VASSERTM(PARENT_OF(TASKP(j), 0)->task == &VT(W0).t && PARENT_OF(TASKP(j), 0)->flow_index == 0, "reader's parent is the last writer");
         VASSERTM(TL(0).last_user.task == &VT(j).t && TL(0).last_writer.task == &VT(W0).t, "reader becomes last user, last writer unchanged");
         VASSERTM(vp_refs(j) == 2, "reader: mempool + executed references");
         check_ready_state();
@@ -89,7 +89,7 @@ static void scenario(int r_, int w_, int p_)
     if(has_w1) {
         if(ins == p) run_w0();
         vp_insert1(W1, 0, opw1 | region); inserted[W1] = 1; ins++;
-        VASSERTM(PARENT_OF(&VT(W1).t, 0)->task == &VT(W0).t, "second writer's parent is the previous writer");
+        VASSERTM(PARENT_OF(TASKP(W1), 0)->task == &VT(W0).t, "second writer's parent is the previous writer");
         VASSERTM(TL(0).last_user.task == &VT(W1).t && TL(0).last_writer.task == &VT(W1).t && TL(0).last_user.alive == TASK_IS_ALIVE, "tile chain ends in the second writer");
         check_ready_state();
     }
